@@ -9,6 +9,7 @@ import (
 	"fmt"
 	"io"
 	"math"
+	"runtime"
 	"sort"
 	"strings"
 	"time"
@@ -22,7 +23,8 @@ type fl = backend.Fl
 
 // Violation is one failed monitor rule.
 type Violation struct {
-	Rule   string `json:"rule"`   // stable identifier of the rule
+	Frame  string `json:"frame,omitempty"` // webrender call site (file#func) that issued the call
+	Rule   string `json:"rule"`            // stable identifier of the rule
 	Detail string `json:"detail"` // human readable
 	Page   int    `json:"page"`
 }
@@ -103,7 +105,9 @@ func (r *Rec) emit(kind string, format string, args ...interface{}) {
 
 func (r *Rec) violate(rule, format string, args ...interface{}) {
 	if len(r.Violations) < 50 {
-		r.Violations = append(r.Violations, Violation{Rule: rule, Detail: fmt.Sprintf(format, args...), Page: r.curPage})
+		buf := make([]byte, 1<<14)
+		frame := topFrame(string(buf[:runtime.Stack(buf, false)]))
+		r.Violations = append(r.Violations, Violation{Rule: rule, Frame: frame, Detail: fmt.Sprintf(format, args...), Page: r.curPage})
 	}
 }
 
